@@ -227,7 +227,7 @@ func ruleGridDimensions(c *eng.Ctx) {
 	}
 	// the comparison col > maxCol where col is ParseCellRef #0 and maxCol a loop-carried phi
 	found, ok := false, false
-	eng.Instrs(fn, false, func(in ssa.Instruction) {
+	scan := func(in ssa.Instruction) {
 		b, isB := in.(*ssa.BinOp)
 		if !isB || b.Op != token.GTR {
 			return
@@ -251,7 +251,10 @@ func ruleGridDimensions(c *eng.Ctx) {
 				}
 			}
 		}
-	})
+	}
+	for _, h := range eng.Cluster(fn, 2) { // the dimension pass may be a helper (worksheetExtent)
+		eng.Instrs(h, false, scan)
+	}
 	c.Check(found && ok, R, "xlsx.(*Reader).parseWorksheet#max-col", fn.Pos(), "grid width is the maximum over all cells", "the grid width is not computed from every cell of every row (e.g. only the last cell of a row): a row written out of column order gets a grid too narrow and its right-most cells are dropped")
 }
 
